@@ -10,6 +10,7 @@ import (
 	"github.com/ipld/go-ipld-prime/codec/dagjson"
 	"github.com/ipld/go-ipld-prime/datamodel"
 	"github.com/ipld/go-ipld-prime/traversal/selector"
+	"github.com/ipld/go-ipld-prime/traversal/selector/builder"
 
 	"github.com/ipfs/go-graphsync/selectorvalidator"
 
@@ -116,14 +117,26 @@ func TestValidator(t *testing.T) {
 		}
 		seen := 0
 		planted := int64(-2)
-		spec := gen.GenSelector(r, o, func(nesting int, path string) (int64, bool) {
-			defer func() { seen++ }()
-			if seen == plantAt {
-				planted = plantLimits[r.Intn(len(plantLimits))]
-				return planted, true
+		var spec datamodel.Node
+		if c%4 == 3 {
+			// deep linear chain of 1..80 clauses around one recursion with a planted limit
+			n := 1 + r.Intn(40)
+			if r.Intn(3) == 0 {
+				n = 10 + r.Intn(12)
 			}
-			return 0, false
-		})
+			planted = plantLimits[r.Intn(len(plantLimits))]
+			spec = gen.GenChain(r, n, func(inRec bool) builder.SelectorSpec { return gen.Recursion(planted) })
+			rep.Max("max_chain_depth", int64(n))
+		} else {
+			spec = gen.GenSelector(r, o, func(nesting int, path string) (int64, bool) {
+				defer func() { seen++ }()
+				if seen == plantAt {
+					planted = plantLimits[r.Intn(len(plantLimits))]
+					return planted, true
+				}
+				return 0, false
+			})
+		}
 		if c%256 == 0 {
 			rep.Journal("case %d", c)
 		}
